@@ -24,6 +24,16 @@ def modelObs : List String → String
   | ["I", f, s, fl, fa] =>
     let r := identityMapRegion (w f) (w s) (w fl) (failAtOf fa)
     s!"{if r.ok then 1 else 0} {r.page.toNat} {r.calls.length} {callsStr r.calls}"
+  | ["GR", c, sz] =>
+    match gortReserve (w c) (w sz) with
+    | some a => s!"0 {a.toNat} 1 {a.toNat}"
+    | none => s!"1 0 0 {(w c).toNat}"
+  | ["GM", va, sz, fa, zf] =>
+    let (ret, calls) := gortMap (w va) (w sz) (w zf) (failAtOf fa)
+    (s!"{ret.toNat} {calls.length} {callsStr calls}").trimAscii.toString
+  | ["GA", c, sz, afa, mfa] =>
+    let (ret, cur, ms, calls) := gortAlloc (w c) (w sz) (BitVec.ofNat 64 0x1001) (failAtOf afa) (failAtOf mfa)
+    (s!"{ret.toNat} {cur.toNat} {ms} {calls.length} {callsStr calls}").trimAscii.toString
   | ["P", req] =>
     -- the bitmap allocator maps its own state through a reservation of `req` bytes: one page per
     -- 4096 bytes (rounded up), starting at the reserved address, consecutively
@@ -63,6 +73,32 @@ def oracle (op : List String) (obs : List Nat) : List String :=
       (if page ≠ f ∨ n ≠ want ∨ triples calls ≠ (List.range want).map (fun i => (f + i, f + i, fl))
         then ["identity-maps-exact-pages"] else [])
     else []
+  | ["GR", c, sz], [panicked, addr, _, cur'] =>
+    let c := nat! c; let sz := nat! sz
+    if panicked = 0 then
+      (if ¬ (addr + sz ≤ c ∧ addr % 4096 = (c % 4096) ∧ cur' = addr) then ["gort-reserve-at-least-requested"] else [])
+    else (if cur' ≠ c then ["gort-reserve-fail-pure"] else []) ++
+         (if ceilBytes sz ≤ c then ["gort-reserve-fits-iff"] else [])
+  | ["GM", va, sz, _, zf], ret :: n :: calls =>
+    let va := nat! va; let sz := nat! sz; let zf := nat! zf
+    let want := ceilBytes sz / 4096
+    let rw := Firefly.Gen.C07.flagRW
+    (if (triples calls).any (fun (_, f, fl) => f = zf ∧ (fl / rw) % 2 = 1) then ["zero-frame-mapped-writable"] else []) ++
+    (if ret ≠ 0 then
+      (if n ≠ want ∨ ret ≠ ceilBytes va ∨
+          (triples calls).map (·.1) ≠ (List.range want).map (fun i => ceilBytes va / 4096 + i) ∨
+          (triples calls).any (fun (_, f, _) => f ≠ zf)
+        then ["gort-map-exact-pages"] else [])
+     else [])
+  | ["GA", c, sz, _, _], ret :: cur' :: ms :: n :: calls =>
+    let c := nat! c; let sz := nat! sz
+    let want := ceilBytes sz / 4096
+    if ret ≠ 0 then
+      (if ¬ (ret + ceilBytes sz = c ∧ cur' = ret) then ["gort-alloc-reserved-exact"] else []) ++
+      (if n ≠ want ∨ ms ≠ want ∨ (triples calls).map (·.1) ≠ (List.range want).map (fun i => ret / 4096 + i) ∨
+          ¬ ((triples calls).map (·.2.1)).Nodup
+        then ["gort-alloc-exact-pages"] else [])
+    else (if ceilBytes sz ≤ c ∧ op.getD 3 "" = "-1" ∧ op.getD 4 "" = "-1" then ["gort-alloc-fits-iff"] else [])
   | ["P", req], [code, n, first, contig] =>
     if code = 0 then
       (if n ≠ ceilBytes (nat! req) / 4096 ∨ first ≠ 0 ∨ contig ≠ 1 then ["client-maps-exact-pages"] else [])
@@ -93,7 +129,7 @@ def processLine (st : St) (line : String) : IO St := do
       st := { st with stats := st.stats.bump "propfail" }
     -- history clause: within one case, R ops run on the real (threaded) cursor
     match op with
-    | _ :: c :: _ => if op.head? ≠ some "I" ∧ nat! c ≠ st.last then st := { st with hist := [] }
+    | _ :: c :: _ => if op.head? ≠ some "I" ∧ op.head? ≠ some "GM" ∧ nat! c ≠ st.last then st := { st with hist := [] }
     | _ => pure ()
     match op, obs with
     | ["R", _, _], [_, _, cur'] => st := { st with last := cur' }
